@@ -467,6 +467,9 @@ def assemble(unit, ex, extra_spec=""):
         parts.append(f"//@@ item {it['file']}:{it['line']} {it['selector']}\n")
         parts.append(splice_item(it, contracts, unit["name"], used, canaries))
         parts.append("//@@ end\n")
+    # global vacuity guard: the trusted prelude and the specification must not prove `false` (this proof fn MUST FAIL)
+    parts.append("//@@ " + unit["name"] + "|<prelude>|canary|0\nproof fn __vx_canary_prelude()\n    ensures false\n{}\n//@@ end\n")
+    canaries.append("<prelude>::prelude")
     parts.append("} // verus!\nfn main() {}\n")
     known = {f["name"] for it in ex["items"] for f in it["fns"]}
     for q in contracts:
